@@ -229,6 +229,26 @@ func C18(r *simkit.Run) {
 				}
 				lf.desc = append(lf.desc, fmt.Sprintf("diff:drop-column %s.%s virtual=%v (SQLite rebuild)", tb.Name, c.Name, c.Virtual))
 			}
+			// Sometimes the same diff also drops another table: the plan then rebuilds one table and
+			// drops the next one right after the rebuild's RENAME.
+			if len(want) > 1 && t.Chance("diff-also-drops-a-table", 1, 3) {
+				var ns []string
+				for n := range want {
+					if tb == nil || n != tb.Name {
+						ns = append(ns, n)
+					}
+				}
+				sort.Strings(ns)
+				if len(ns) > 0 {
+					victim := ns[t.Draw("second-victim", len(ns))]
+					if _, existed := tables[victim]; existed {
+						delete(want, victim)
+						exp = append(exp, lintExpect{code: "DS102", key: victim, what: "table " + victim, anywhere: true})
+						lf.desc = append(lf.desc, "diff:also-drop-table "+victim)
+						r.Probe("diff-with-two-edits")
+					}
+				}
+			}
 			hp := filepath.Join(w.Root, "desired.hcl")
 			os.WriteFile(hp, []byte(lintHCL(want)), 0o644)
 			beforeDir := w.DirSnapshot()
@@ -371,12 +391,20 @@ func C18(r *simkit.Run) {
 							keep = append(keep, "`"+x.Name+"`")
 						}
 					}
-					s, e := emit("PRAGMA foreign_keys = off",
-						nt.createSQL("new_"+tb.Name),
+					group := []string{
+						nt.createSQL("new_" + tb.Name),
 						fmt.Sprintf("INSERT INTO `new_%s` (%s) SELECT %s FROM `%s`", tb.Name, strings.Join(keep, ", "), strings.Join(keep, ", "), tb.Name),
 						fmt.Sprintf("DROP TABLE `%s`", tb.Name),
 						fmt.Sprintf("ALTER TABLE `new_%s` RENAME TO `%s`", tb.Name, tb.Name),
-						"PRAGMA foreign_keys = on")
+					}
+					// The PRAGMA frame is optional: without it the next operation's statement follows the
+					// RENAME directly (as in a plan that rebuilds one table and then drops another).
+					if t.Chance("pragma-frame", 1, 2) {
+						group = append(append([]string{"PRAGMA foreign_keys = off"}, group...), "PRAGMA foreign_keys = on")
+					} else {
+						r.Probe("rebuild-without-pragma-frame")
+					}
+					s, e := emit(group...)
 					bt, existed := before[tb.Name]
 					dropAt(s, e, tb.Name+"."+c.Name)
 					if existed && bt.has(c.Name) {
@@ -398,12 +426,18 @@ func C18(r *simkit.Run) {
 							keep = append(keep, "`"+x.Name+"`")
 						}
 					}
-					emit("PRAGMA foreign_keys = off",
-						nt.createSQL("new_"+tb.Name),
+					group := []string{
+						nt.createSQL("new_" + tb.Name),
 						fmt.Sprintf("INSERT INTO `new_%s` (%s) SELECT %s FROM `%s`", tb.Name, strings.Join(keep, ", "), strings.Join(keep, ", "), tb.Name),
 						fmt.Sprintf("DROP TABLE `%s`", tb.Name),
 						fmt.Sprintf("ALTER TABLE `new_%s` RENAME TO `%s`", tb.Name, tb.Name),
-						"PRAGMA foreign_keys = on")
+					}
+					if t.Chance("pragma-frame", 1, 2) {
+						group = append(append([]string{"PRAGMA foreign_keys = off"}, group...), "PRAGMA foreign_keys = on")
+					} else {
+						r.Probe("rebuild-without-pragma-frame")
+					}
+					emit(group...)
 					tables[tb.Name] = nt
 					lf.desc = append(lf.desc, "additive rebuild of "+tb.Name)
 					r.Probe("additive-rebuild")
